@@ -100,8 +100,13 @@ def main():
             print(f"{res['name']:34s} suite={res.get('suite')} caught_by={res.get('caught_by')} "
                   f"broken={res.get('broken')} {res.get('error', '')}", flush=True)
     path = os.path.join(VERIF, "seeded", f"MATRIX-{args.tier}{'-all' if args.all_checks else ''}.json")
+    if only and os.path.exists(path):  # partial re-run: merge into the existing matrix
+        full = json.load(open(path, encoding="utf-8"))
+        full.update(out)
+    else:
+        full = out
     with open(path, "w", encoding="utf-8") as fh:
-        json.dump(out, fh, indent=1, sort_keys=True)
+        json.dump(full, fh, indent=1, sort_keys=True)
     missed = [n for n, r in out.items() if not r.get("caught_by")]
     print(f"{len(out)} changes, {len(missed)} not caught: {missed}")
     return 0
